@@ -372,6 +372,7 @@ Proof.
     specialize (IH (ex_intro _ t Hx) Hss).
     intros c c' H Hb. cbn [marshal_t] in H. cbv zeta in H. cbn [relabel] in Hb |- *.
     destruct (N.ltb_spec 255 (len (to_str t))) as [|Hl]; [discriminate|].
+    destruct (is_ok (validate_signature (to_str t))) eqn:Evs; [|discriminate].
     destruct (relabel x (mfds c)) as [x' n'] eqn:Er. cbn [fst snd] in *.
     destruct (IH _ _ H) as [Hb1 Hf1]; [cbn [mfds]; rewrite Er; exact Hb|].
     cbn [mbuf mfds] in Hb1, Hf1. rewrite Er in Hb1, Hf1. cbn [fst snd] in Hb1, Hf1.
@@ -595,6 +596,7 @@ Proof.
     exact (marshal_entries_leaves _ _ Hok _ _ Es).
   - cbn [marshal_t] in H. cbv zeta in H. cbn [leaves_ok].
     destruct (N.ltb_spec 255 (len (to_str t))) as [|Hl]; [discriminate|].
+    destruct (is_ok (validate_signature (to_str t))) eqn:Evs; [|discriminate].
     apply N.leb_le in Hl. rewrite Hl. cbn [andb].
     apply (IH (ex_intro _ t (wt_variant_inv _ _ _ Hwt)) _ _ H).
 Qed.
